@@ -200,25 +200,48 @@ pub fn perturb(rng: &mut Rng, order: &mut Vec<u32>, lg_k: u8, plant: bool, delay
     if n < 64 {
         return;
     }
+    // move `m` elements drawn from [from_lo, from_hi] to random places in [to_lo, to_hi] (one pass, O(n + m log m))
+    fn relocate(rng: &mut Rng, order: &mut Vec<u32>, m: usize, from: (usize, usize), to: (usize, usize)) {
+        let n = order.len();
+        let mut picked = std::collections::BTreeSet::new();
+        for _ in 0..m {
+            picked.insert(rng.usize(from.0, from.1.min(n - 1)));
+        }
+        let moved: Vec<u32> = picked.iter().map(|&i| order[i]).collect();
+        let mut rest: Vec<u32> = Vec::with_capacity(n);
+        for (i, &x) in order.iter().enumerate() {
+            if !picked.contains(&i) {
+                rest.push(x);
+            }
+        }
+        let hi = to.1.min(rest.len());
+        let lo = to.0.min(hi);
+        let mut places: Vec<usize> = (0..moved.len()).map(|_| rng.usize(lo, hi)).collect();
+        places.sort_unstable();
+        let mut out: Vec<u32> = Vec::with_capacity(n);
+        let mut pi = 0;
+        for (i, &x) in rest.iter().enumerate() {
+            while pi < places.len() && places[pi] == i {
+                out.push(moved[pi]);
+                pi += 1;
+            }
+            out.push(x);
+        }
+        while pi < places.len() {
+            out.push(moved[pi]);
+            pi += 1;
+        }
+        *order = out;
+    }
     if plant {
         // surprising 1's long before the window arrives: take late, high-column coupons to the front
         let m = rng.usize(1, (k / 2).max(2));
-        for _ in 0..m {
-            let from = rng.usize(n / 2, n - 1);
-            let to = rng.usize(0, n / 8);
-            let x = order.remove(from);
-            order.insert(to, x);
-        }
+        relocate(rng, order, m, (n / 2, n - 1), (0, n / 8));
     }
     if delay {
         // surprising 0's kept in the early zone until late: take early coupons to the back
         let m = rng.usize(1, (k / 2).max(2));
-        for _ in 0..m {
-            let from = rng.usize(0, n / 4);
-            let to = rng.usize(n / 2, n - 1);
-            let x = order.remove(from);
-            order.insert(to, x);
-        }
+        relocate(rng, order, m, (0, n / 4), (n / 2, n - 1));
     }
 }
 
